@@ -83,6 +83,11 @@ func Harness_C06_ContentAddress() {
 		verifrt.Reach("invalid")
 	}
 	verifrt.Assert(ok == verifrt.JSONEqual(v, w), "IsValidModelMultihash(v, hash(w)) succeeds iff v and w are equal JSON values")
+	// the encoding is the unpadded one: the same text with padding characters appended is not a well-formed hash
+	padded := h + []string{"=", "=="}[verifrt.Choose("padding", 2)]
+	_, perr := GetMultihashCode(padded)
+	verifrt.Assert(perr != nil && IsValidModelMultihash(w, padded) != nil && !IsSupportedMultihash(padded) && !IsComputedUsingMultihashAlgorithms(padded, []uint{0x12, 0x13}),
+		"a hash text with base64 padding appended is rejected as malformed")
 	// single-point modification of the hash text: one letter behind the prefix changes case
 	if hv, herr := CalculateModelMultihash(v, code); herr == nil {
 		if hc, changed := verifrt.SwapCase(hv); changed {
